@@ -82,6 +82,8 @@ def gen(rng: random.Random, tier: str):
         for op in ops:
             tags += U.op_tags(op)
         cases.append(mk_case(U.mk_data(cls, n, names, sep, ops), tags))
+    for d in U.drain_unhealthy():   # exploration met a store that is not a forest: let the tie and the oracle see it
+        cases.append(mk_case(d, ("explore-unhealthy",)))
     return cases
 
 
